@@ -253,6 +253,15 @@ func (w *worker) run(c caseT) {
 	if msg := svc.MatchEvents(pred.Events, got); msg != "" {
 		r.Violation(sig("invocations"), msg, wit)
 	}
+	// Not part of C06's statement (C04 owns the request-id clause for unary
+	// calls): only counted, so the evidence shows what the stream paths do.
+	for _, b := range res.Output.Errors() {
+		if b.RequestID == c.RequestID {
+			r.Count("exception.request_id_echoed", 1)
+		} else {
+			r.Count("exception.request_id_other", 1)
+		}
+	}
 	// Direct observations made by the states themselves.
 	states := map[string]bool{}
 	for _, e := range evs {
@@ -279,6 +288,11 @@ func (w *worker) run(c caseT) {
 		r.Count("state_identity_changed_within_pipe_stream", 1)
 	}
 }
+
+var (
+	sentinelMu  sync.Mutex
+	sentinelIDs = map[string]string{}
+)
 
 func classes(r *mon.Run, c caseT, pred svc.Pred, kind string) {
 	r.Class("kind." + kind)
@@ -349,6 +363,19 @@ func classes(r *mon.Run, c caseT, pred svc.Pred, kind string) {
 		}
 	}
 	for _, t := range c.Script.Turns {
+		if t.Act == svc.ActError && pred.Fails {
+			r.Class("error." + t.Err.Kind)
+			if t.Err.Kind == "rpc-sentinel" {
+				key := t.Err.Type + "|" + t.Err.Msg
+				sentinelMu.Lock()
+				prev, seen := sentinelIDs[key]
+				sentinelIDs[key] = c.RequestID
+				sentinelMu.Unlock()
+				if seen && prev != c.RequestID {
+					r.Class("sentinel.same-value-different-request-id")
+				}
+			}
+		}
 		switch t.Act {
 		case svc.ActFinish, svc.ActEmitFin, svc.ActFinishRet, svc.ActFinishIgn:
 			if c.Producer {
@@ -373,7 +400,10 @@ func main() {
 		"finish-on-exchange.observed", "second-emit.observed",
 		"input.int32", "input.float32", "input.decimal", "input.both", "input.badname", "input.badtype", "input.extracol", "input.fewer",
 		"turns.>=2-data", "turns.zero-data", "turn.logs-before-data", "turn.emit-with-metadata", "init.logs",
-		"client.pipelined", "client.lockstep")
+		"client.pipelined", "client.lockstep", "sentinel.same-value-different-request-id")
+	for _, k := range svc.ErrKinds {
+		r.Require("error." + k)
+	}
 
 	// the library logs transport errors of torn-down sessions through slog: noise here
 	slog.SetDefault(slog.New(slog.NewTextHandler(io.Discard, nil)))
